@@ -31,12 +31,12 @@ def main():
     variant = sys.argv[2] if len(sys.argv) > 2 else ''        # '' (round 1) | A | B (round 2)
     root = '/tmp/seed/%s' % pid if not variant else {'A': '/tmp/seed2/', 'B': '/tmp/seed2/', 'C': '/tmp/seed3/',
                                                       'D': '/tmp/seed3/', 'E': '/tmp/seed4/', 'F': '/tmp/seed4/', 'G': '/tmp/seed5/',
-                                                      'H': '/tmp/seed5/', 'I': '/tmp/seed6/', 'J': '/tmp/seed6/', 'K': '/tmp/seed7/', 'L': '/tmp/seed8/', 'M': '/tmp/seed9/'}[variant] + pid
+                                                      'H': '/tmp/seed5/', 'I': '/tmp/seed6/', 'J': '/tmp/seed6/', 'K': '/tmp/seed7/', 'L': '/tmp/seed8/', 'M': '/tmp/seed9/', 'N': '/tmp/seed10/'}[variant] + pid
     src = root + '/_out'
     name = pid if not variant else '%s-%s' % (pid, variant)
     dst = os.path.join(HERE, 'seeded', name)
     os.makedirs(dst, exist_ok=True)
-    fsuf = {'C': 'A', 'D': 'B', 'E': 'A', 'F': 'B', 'G': 'A', 'H': 'B', 'I': 'A', 'J': 'B', 'K': 'A', 'L': 'A', 'M': 'A'}.get(variant, variant)   # rounds 3 / 4 are stored as variants C,D / E,F
+    fsuf = {'C': 'A', 'D': 'B', 'E': 'A', 'F': 'B', 'G': 'A', 'H': 'B', 'I': 'A', 'J': 'B', 'K': 'A', 'L': 'A', 'M': 'A', 'N': 'A'}.get(variant, variant)   # rounds 3 / 4 are stored as variants C,D / E,F
     shutil.copy(os.path.join(src, 'patch%s.diff' % fsuf), os.path.join(dst, 'patch.diff'))
     shutil.copy(os.path.join(src, 'demo%s.py' % fsuf), os.path.join(dst, 'demo.py'))
     shutil.copy(os.path.join(src, 'NOTES.md'), os.path.join(dst, 'NOTES.md'))
